@@ -318,6 +318,41 @@ def gen_schema_vocab(rng, n, cfg):
     return [(cfg, g(rng.randint(0, 3))) for _ in range(n)]
 
 
+# whole-text "magic words" and characters that strip()/split()/codecs treat specially: no text is exempt from parsing
+MAGIC = ["n/a", "N/A", "na", "NA", "nan", "None", "null", "#", "{}", "{a}", "HED", "0", "-", "n/a/", "/n/a", "n / a",
+         "true", "''", '""', "\\", "n/a n/a"]
+EDGE = ["\ufeff", "\u200b", "\u00a0", "\t", "\n", "\r", "\r\n", "\x00", "\x0b", "\x0c", "\x1c", "\x85", "\u2028",
+        "\u2029", "\u3000", "\u200e", "\u202e", "\u00ad", "\ufffe", "\U000e0001", "\ud7ff", "\uffff"]
+
+
+def gen_special(rng, n):
+    out = []
+    for w in MAGIC:
+        for pad in ("", " ", "  "):
+            out += [pad + w + pad, pad + w + ",", "," + w + pad, "(" + pad + w + pad + ")", w + ", Red", "Red," + pad + w,
+                    "(Red, " + w + ")", w + "," + w]
+    base = ["Red, Blue", "(Red, Blue)", "Sensory-event, (Red, Blue)", "Red", "", "(", ")", "Label/abc, (Def/Name)"]
+    for c in EDGE:
+        for b in base:
+            out += [c + b, b + c, c + b + c, c + c + b, " " + c + b, c + " " + b]
+        out += [c, c + ",", "Red," + c + "Blue", "Red" + c + ",Blue", "(" + c + "Red)", "(Red" + c + ")", "Re" + c + "d",
+                c + "n/a", "n/a" + c]
+    wf = gen_wellformed(rng, n)
+    for t in wf:
+        c = rng.choice(EDGE)
+        x = rng.random()
+        if x < 0.3:
+            out.append(c + t)
+        elif x < 0.6:
+            out.append(t + c)
+        elif x < 0.8:
+            out.append(c + t + rng.choice(EDGE))
+        else:
+            k = rng.randint(0, len(t))
+            out.append(t[:k] + c + t[k:])
+    return out
+
+
 def all_strings(n):
     for k in range(n + 1):
         for t in itertools.product(SIGMA6, repeat=k):
@@ -351,6 +386,7 @@ def run(tier, seed, res, model_ok=True, proof_ok=True):
     nrand = 3000 if tier == "quick" else 60000
     corpus += ["Red, (Blue, Event/Pre\u00df)", "Agent/\u017fen\u017fory-event", "Item/De\ufb01nition/x", "Label/Stra\u00dfe"]
     cases = [(0, s) for s in corpus + exhaustive + gen_random(rng, nrand) + gen_wellformed(rng, nrand)]
+    cases += [(0, s) for s in gen_special(rng, 600 if tier == "quick" else 10000)]
     nvoc = 800 if tier == "quick" else 12000
     for cfg in range(len(CONFIGS)):
         cases += gen_schema_vocab(rng, nvoc, cfg)
@@ -420,6 +456,9 @@ def run(tier, seed, res, model_ok=True, proof_ok=True):
                 "nested annotations over the schema's own vocabulary (base / intermediate / extension / value positions, "
                 "names as is, in other letter case or with case-fold-equivalent letters, prefix used / omitted / wrong) "
                 "and, for the non-default configurations, the corpus + well-formed + random streams again; "
+                "+ a stream of whole-text magic words (n/a, None, null, #, {} ...) in list/group positions and of "
+                "characters that strip()/split()/codecs treat specially (BOM, zero-width, every Unicode blank and line "
+                "break, NUL, bidi marks) at the start, end and inside of well-formed annotations; "
                 "non-trivial = contains at least one delimiter",
         "samples": [cases[0][1], cases[len(corpus) + 777][1], cases[-1][1], cases[-nvoc - 1][1]],
         "exhaustive": False,
